@@ -120,6 +120,13 @@ static void reserve_case(const char *name, long k, long r) {
     v.shrink_to_fit();
     long size = static_cast<long>(v.size()), cap = static_cast<long>(v.capacity());
     if (N == 0 ? cap != size : (size <= N ? cap != N : cap != size)) violation(P18, "shrink_to_fit with size %ld (N=%ld) leaves capacity %ld", size, N, cap);
+    {
+      const char *b = reinterpret_cast<const char *>(&v), *q = reinterpret_cast<const char *>(v.data());
+      const bool inl = q >= b && q < b + sizeof(V);
+      if (N > 0 && size <= N && !inl) violation(P18, "shrink_to_fit with size %ld <= N=%ld does not come back to the inline storage", size, N);
+      if (alloc_on_ledger<typename V::allocator_type>::value && ((N > 0 && size <= N) || size == 0) && aledger().outstanding != 0)
+        violation(P18, "shrink_to_fit with size %ld (N=%ld) keeps %u heap block(s)", size, N, aledger().outstanding);
+    }
     if (static_cast<long>(v.size()) != k) violation(P18, "size changed");
   }
   if (!failed() && (cells().live != 0 || aledger().outstanding != 0)) violation(P18 | P02, "leak");
